@@ -15,14 +15,14 @@ RULE = (
 
 
 def nontrivial(case, sess):
-    return len(sess.driver.sent_log()) >= 1 and len([o for o in case["ops"] if o["op"] == "line"]) >= 4 and "aborted" not in sess.labels
+    return (getattr(sess, "sent_before_restart", 0) + len(sess.driver.sent_log())) >= 1 and len([o for o in case["ops"] if o["op"] == "line"]) >= 4 and "aborted" not in sess.labels
 
 
 KINDS = ["node", "child", "set", "set", "req", "req", "req", "battery", "sketch", "time", "time", "config", "config", "idreq", "idreq", "ready", "wake", "wake", "wake", "discover", "log", "misc", "cfgreq", "blkreq", "stream_misc"]
 
 CHECK = HistoryCheck(
     "C05", {"reply", "ids", "reboot"}, RULE,
-    dict(max_ops=30, frame_kinds=KINDS, op_weights=dict(clock=6, metric=5, set=12, fw=3)), nontrivial,
+    dict(max_ops=30, frame_kinds=KINDS, op_weights=dict(clock=6, metric=5, set=12, fw=3, save=2)), nontrivial,
     quick=(16, 160), thorough=(16, 2500),
     assumptions=[
         "reference model vf/ref/model.py prescribes the reply; firmware replies are judged by C09/C10",
